@@ -60,6 +60,8 @@ STATES = {
     "synced": [],
     "unsynced": [("write", "d1", "late", 1500, 0), ("rm", "d1", "anchor"), ("cmd", "sync", "-B", "1")],
     "bad": [("dmg", "d1"), ("cmd", "scrub", "-p", "full")],
+    # silent errors recorded in the FIRST stripe of the array, in a middle one and in the last one used by d1
+    "bad-spread": [("dmg", "d1", 0), ("dmg", "d1", "mid"), ("dmg", "d1", "last"), ("cmd", "scrub", "-p", "full")],
     "rehash": [("cmd", "rehash"), ("write", "d2", "late2", 1200, 0), ("cmd", "sync")],
     # a range-limited sync leaves the FIRST of the newly recorded files of d1 unsynced, the duplicates recorded after it synced
     "unsynced-head": [("write", "d1", "late0", 1500, 0), ("writedata", "d1", "late1", "G5", 1024), ("writedata", "d1", "late2", "G5", 1024),
@@ -115,8 +117,10 @@ def check_list(L, c, where):
     return v
 
 
-def check_dup(L, c, where):
+def check_dup(L, c, where, orig=None):
+    """orig: bytes of the files as they were when recorded, for files silently damaged since (dup speaks about the recorded array)"""
     v = []
+    orig = orig or {}
     r = L.run("dup")
     bs = c.block_size
     # ground truth: classes of non-empty fully synced files by content
@@ -126,7 +130,7 @@ def check_dup(L, c, where):
             if f.size == 0 or any(st != C.BLK for st, _, _ in f.blocks):
                 continue
             try:
-                data = L.read(d.name.decode(), dec(f.sub))
+                data = orig.get((d.name, f.sub)) or L.read(d.name.decode(), dec(f.sub))
             except OSError:
                 continue
             classes.setdefault(data, set()).add((d.name, f.sub))
@@ -176,12 +180,17 @@ def check_dup(L, c, where):
     return v
 
 
+def sname_wants_bad(where):
+    return "/bad-spread" in where
+
+
 def check_status(L, c, where):
     v = []
     r = L.run("status", "-G")
     tab = c.stripe_table()
     want = {}
     unsynced = unscrubbed = bad = rehash = 0
+    badpos = []
     for pos in range(c.blockmax):
         per = tab.get(pos, {})
         states = [e[0] for ents in per.values() for e in ents]
@@ -192,6 +201,8 @@ def check_status(L, c, where):
             unsynced += 1
         if info is not None:
             bad += info[1]
+            if info[1]:
+                badpos.append(pos)
             rehash += info[2]
             unscrubbed += info[3]
             want[pos] = (info[0], one_valid, one_invalid, info[1], info[2])
@@ -215,6 +226,10 @@ def check_status(L, c, where):
             v.append(dict(kind="status-counter-" + key, where=where, want=val, got=repr(s.get(key))))
     if "has_bad" not in s or int(s["has_bad"][0]) != bad:
         v.append(dict(kind="status-counter-has_bad", where=where, want=bad, got=repr(s.get("has_bad"))))
+    elif badpos and (len(s["has_bad"]) < 3 or (int(s["has_bad"][1]), int(s["has_bad"][2])) != (badpos[0], badpos[-1])):
+        v.append(dict(kind="status-bad-range", where=where, want=(badpos[0], badpos[-1]), got=repr(s.get("has_bad"))))
+    if sname_wants_bad(where) and len(badpos) < 3:
+        v.append(dict(kind="HARNESS-bad-spread-not-reached", where=where, bad=badpos))
     return v
 
 
@@ -375,10 +390,18 @@ def job(j):
         r = L.run("sync")
         if r.rc != 0:
             raise RuntimeError("sync failed\n" + r.text())
+        orig = {}
         for op in state_ops:
             if op[0] == "dmg":
                 c = L.content()
-                F.damage_data_block(L, c, op[1], 0, "whole")
+                if not orig:
+                    for d in c.disks.values():
+                        for f in d.files:
+                            orig[(d.name, f.sub)] = L.read(d.name.decode(), dec(f.sub))
+                used = sorted(pos for f in c.disks[op[1].encode()].files for _, pos, _ in f.blocks)
+                at = op[2] if len(op) > 2 else 0
+                at = used[-1] if at == "last" else used[len(used) // 2] if at == "mid" else at
+                F.damage_data_block(L, c, op[1], at, "whole")
             elif op[0] == "sync-skip-first-new":
                 c = L.content()
                 used = max([pos for f in c.disks[op[1].encode()].files for _, pos, _ in f.blocks] + [-1]) + 1
@@ -394,7 +417,7 @@ def job(j):
                 X.apply_op(L, op)
         c = L.content()
         v += check_list(L, c, where)
-        v += check_dup(L, c, where)
+        v += check_dup(L, c, where, orig)
         v += check_status(L, c, where)
         v += check_pool(L, c, where, share)
         if sname == "synced":
